@@ -128,6 +128,33 @@ def tag_discrimination(ctx, report):
             report.add('C09.R4', f.construct + '@tag[protocolOp]', '%s does not check that the protocolOp on the wire is %s' % (cname, want))
 
 
+def field_pinned(ctx, c, key, good, bads):
+    """does the parser of ``c`` raise for every value of the parsed field ``key`` in ``bads`` and for ``good`` not?  Decided on
+    the guards of the extracted parse trace (conditions in front of a raise), evaluated with the field set to each value -
+    class constants, locals and the comparison operator used do not matter"""
+    from ..symeval import NotEvaluable, evaluate
+    from ..trace import Alt
+    from ..values import FieldV
+    res = ctx.canon.layout(c, 'parse').result
+    guards = [n for n in walk(res.block) if isinstance(n, Alt) and any(isinstance(x, Raise) for x in walk(n.then)) and
+              not any(isinstance(x, Raise) and 'NotEnoughData' in show(x.exc) for x in walk(n.then))]
+
+    def verdict(value):
+        def leaf(v):
+            if isinstance(v, FieldV) and v.key == key:
+                return value
+            raise NotEvaluable(show(v))
+        hit = False
+        for g in guards:
+            try:
+                if evaluate(g.cond, leaf):
+                    hit = True
+            except NotEvaluable:
+                continue
+        return hit
+    return not verdict(good) and all(verdict(b) for b in bads)
+
+
 def constants(ctx, report):
     report.rule('C09.R5', 'protocol constants')
     spec = load_spec('opp.json')['constants']
@@ -170,7 +197,7 @@ def constants(ctx, report):
                    'cancel) is returned as a StartTLS request' % spec['starttls_oid'])
     t = model.cls('TPKT')
     report.count('C09.R5')
-    if "!= %d" % spec['tpkt_version'] not in ast.unparse(t.methods['_parse'].node):
+    if not field_pinned(ctx, t, 'version', spec['tpkt_version'], (0, 1, 2, 4, 255)):
         report.add('C09.R5', t.construct + '@version', 'TPKT version %d is not enforced' % spec['tpkt_version'])
     # MySQL SSL request, split flag word (C01 reviewed equivalence): little endian, 2+2 = 4, shifts 0 and 16
     m = model.cls('MySQLHandshakeSslRequest')
